@@ -96,6 +96,10 @@ LimitSet ==
   \cup {Rec("bigprime", b, a, NoPref) : b \in {400, 500, 512}, a \in Algs \ Word64Algs}
   \cup {Rec("qP", b, "qs", NoPref) : b \in {401, 449, 500, 512}}
   \cup {Rec("qP", b, "mpqs", NoPref) : b \in {449, 500, 512}}
+  \cup {Rec("qP", b, a, NoPref) : b \in 501..512, a \in {"ecm", "pm1"}}
+  \* the self-initialising sieve has no size guard: it must still answer or fail cleanly (it cannot finish a
+  \* 300..460-bit input inside any budget, so only sizes where it stops by itself are driven)
+  \cup {Rec("qP", b, "siqs", NoPref) : b \in {480, 512}}
   \cup {Rec(sh, b, a, NoPref) : sh \in {"over_random", "over_qP", "over_p2", "over_pow2"},
                                 b \in {513, 520, 576, 640, 768, 1000, 1023}, a \in {"auto", "pm1", "ecm", "siqs", "qs"}}
 
